@@ -1,6 +1,7 @@
 """C17 -- no command returns bytes from outside the volume or surface being read."""
 import copy
 import os
+import re
 
 from hypothesis import strategies as st
 
@@ -15,7 +16,7 @@ def _ent(name, start, length, seed):
 
 @st.composite
 def case_st(draw):
-    kind = draw(st.sampled_from(["opus", "opus", "one", "inter0", "inter1", "mmb"]))
+    kind = draw(st.sampled_from(["opus", "opus", "one", "inter0", "inter1", "mmb", "mmb-hdfsx"]))
     delta = draw(st.sampled_from([-2, -1, 0, 1, 2, 2, 1, 17, 300]))
     nsec = draw(st.sampled_from([1, 2, 3, 5, 19]))
     rem = draw(st.sampled_from([0, 1, 255]))
@@ -46,6 +47,11 @@ def case_st(draw):
     elif kind == "mmb":
         c["slot"] = draw(st.sampled_from([0, 1, 2, 100, 509]))
         c["total"] = draw(st.sampled_from([800, 800, 400]))
+    elif kind == "mmb-hdfsx":
+        # an HDFS-flagged catalogue whose extension bit (bit 7 of the first title byte) makes the catalogue claim
+        # 512 sectors more than the slot has: extract-unused then walks past the end of the slot
+        c["slot"] = draw(st.sampled_from([0, 1, 2, 100, 509]))
+        c["total"] = draw(st.sampled_from([300, 400, 511, 256]))        # < 512, so that the extension bit adds 512
     else:
         c["tracks"] = draw(st.sampled_from([35, 40, 80]))
         c["spt"] = draw(st.sampled_from([10, 18]))
@@ -60,7 +66,8 @@ class C17(CheckBase):
             "boundary-2 .. boundary+2 (and +17, +300) sectors relative to: the end of each Opus volume A-H (even or "
             "uneven split, single-track volumes included), the end "
             "of a one-sided surface, the end of side 0 / side 1 of an interleaved two-sided image, the end of an MMB "
-            "slot; neighbouring regions hold different random data.  type --binary, dump and extract-files are run "
+            "slot, and extract-unused on an MMB slot whose HDFS catalogue (extension bit) claims 512 sectors more than "
+            "the slot has; neighbouring regions hold different random data.  type --binary, dump and extract-files are run "
             "on the ASan build.  Oracle: extent inside => exit 0 and the exact bytes; otherwise exit != 0 with a "
             "diagnostic; in every case any output (stdout or extracted file) is a prefix of the in-bounds bytes, "
             "so no foreign byte is ever shown.  Non-trivial: extent ending within +-2 sectors of a boundary")
@@ -86,6 +93,8 @@ class C17(CheckBase):
         delta, nsec = case["delta"], case["nsec"]
         with runtool.Sandbox("c17") as sb:
             opts = []
+            if kind == "mmb-hdfsx":
+                return self._hdfs_extension(v, dfs, sb, case)
             if kind == "opus":
                 tracks, spt = case["tracks"], 18
                 starts = list(case["starts"])
@@ -213,6 +222,39 @@ class C17(CheckBase):
             except OSError:
                 got = b""
             self._verdict(v, r, inside, expect, "extract-files", label, delta, got)
+        return v
+
+    def _hdfs_extension(self, v, dfs, sb, case):
+        def surf(seed):
+            return {"variant": "hdfs", "tracks": 80, "spt": 10, "fill": {"kind": "rand", "seed": seed},
+                    "volumes": [{"label": None, "title": b"HX%d" % seed, "cycle": 1, "boot": 0, "total": case["total"],
+                                 "title_top": 1, "cats": [[_ent(b"LOW", 2, 700, seed)]]}]}
+        mine = disc.build_surface(surf(case["seed"]))
+        nxt = disc.build_surface(surf(case["seed"] + 1))
+        slot = case["slot"]
+        img = os.path.join(sb.path, "a.mmb")
+        containers.write_mmb(img, {slot: (0x0F, mine), slot + 1: (0x00, nxt)})
+        dest = sb.mkdir("out")
+        r = runtool.run([dfs, "--drive-first", "--file", img, "--drive", str(slot), "extract-unused", dest], sb.path)
+        v.evaluations += 1
+        v.nontrivial = True
+        v.classes.append("mmb-hdfs-extension-bit")
+        if r.timed_out or r.signal is not None or r.sanitizer_report():
+            v.fail("C17/crash", "extract-unused on an HDFS slot with the extension bit: signal/sanitizer", r.brief())
+            return v
+        for f in sorted(os.listdir(dest)):
+            m = re.match(r"^unused_([0-9A-Fa-f]+)\.bin$", f)
+            if not m:
+                continue
+            first = int(m.group(1), 16)
+            with open(os.path.join(dest, f), "rb") as fh:
+                got = fh.read()
+            inb = mine[first * 256:first * 256 + len(got)]
+            if got != inb:
+                v.fail("C17/foreign-bytes", "extract-unused %s of MMB slot %d (800 sectors, catalogue claims %d + 512): "
+                       "%d bytes written, only %d lie inside the slot" % (f, slot, case["total"], len(got), len(inb)),
+                       {"run": r.brief(), "tail_written": got[-32:]})
+                break
         return v
 
     def _verdict(self, v, r, inside, expect, cmd, label, delta, got):
